@@ -120,7 +120,8 @@ def run(rep):
     ok, out = inst.prove_instances(PID, mod, good, "wf_C08",
                                    ["fun (A V : Type) sem sem_slf dv => @C08_not_lost A V sem sem_slf dv {i} {w}",
                                     "fun (A V : Type) sem sem_slf dv => @C08_blocked_waits A V sem sem_slf dv {i} {w}",
-                                    "fun (A V : Type) sem sem_slf dv n (H : cap_of {i} = Some n) => @C08_blocked_until_take A V sem sem_slf dv {i} n H"],
+                                    "fun (A V : Type) sem sem_slf dv n (H : cap_of {i} = Some n) => @C08_blocked_until_take A V sem sem_slf dv {i} n H",
+                                    "fun (A V : Type) sem sem_slf dv (H : cap_of {i} = None) => @C08_unbounded_accepts A V sem sem_slf dv {i} H"],
                                    extra_imports="From IT Require Import Properties.C08.")
     for _ in good:
         rep.oblige(ok)
